@@ -191,6 +191,26 @@ type nOutcome struct {
 
 var nObjSeq int32
 
+// schedulerResponsive returns once a fresh goroutine gets to run within 2 ms three times in a row
+// (or after 300 ms): the "50 – 200 ms after the notification" margin is meant for the client's Recv
+// goroutine to have run, which a starved process (many scenarios in parallel, other jobs on the
+// machine) cannot promise by wall-clock time alone.
+func schedulerResponsive() {
+	good := 0
+	for i := 0; i < 60 && good < 3; i++ {
+		t0 := time.Now()
+		ch := make(chan struct{})
+		go func() { close(ch) }()
+		<-ch
+		if time.Since(t0) < 2*time.Millisecond {
+			good++
+		} else {
+			good = 0
+			time.Sleep(5 * time.Millisecond)
+		}
+	}
+}
+
 func executeNotify(sc Scenario) (out nOutcome) {
 	out.sc = sc
 	ln, err := net.Listen("tcp", "127.0.0.1:0")
@@ -291,6 +311,7 @@ func executeNotify(sc Scenario) (out nOutcome) {
 		out.announced = append(out.announced, cur.k)
 		epoch++
 		time.Sleep(time.Until(at.Add(time.Duration(sc.DelayMs) * time.Millisecond)))
+		schedulerResponsive()
 		call()
 		call()
 		if r+1 < restarts {
